@@ -53,6 +53,8 @@ def _under_lock(n, lock_last):
 
 
 def run(ck, m):
+    from rules.common import rule_memo_safety
+    rule_memo_safety(ck, m, "MEMO", "C15")          # first: a memoised helper also hides the code it wraps from the rules below
     cg = CallGraph(m)
     # ---- R1 -----------------------------------------------------------------------------
     writers = []
@@ -259,8 +261,15 @@ def run(ck, m):
                     ck.ob("R2", enclosing_stmt(n_), okw, f"{fn_.name} rebinds the module global `{n_.id}` - process-wide state remembered between calls (a hand-rolled memo) that is keyed to nothing and that none of the "
                           "invalidation points (enable_queries, enable/disable_win_size_swap, a terminal resize) resets", stmt=f"module state writers: {rel_}::{n_.id} by {fn_.name}")
 
-    from rules.common import rule_memo_safety
-    rule_memo_safety(ck, m, "MEMO", "C15")
+    REBOUND = {"_cell_size_cache", "_cell_size_lock", "_tty_lock"}
+    for rel_ in m.files:
+        if rel_ == U:
+            continue
+        for n_ in ast.walk(m.tree(rel_)):
+            if isinstance(n_, ast.ImportFrom) and (n_.module or "").endswith("utils"):
+                bad = [a_.name for a_ in n_.names if a_.name in REBOUND]
+                ck.ob("R1", n_, not bad, f"{rel_} imports {bad} from utils by name: these module globals are REBOUND (to a shared Array / multiprocessing lock) when a subprocess is started, so a by-name "
+                      "import keeps the orphaned old object - resetting or locking it no longer affects the live cache", stmt=f"{rel_}: rebinding utils globals only through the module ({', '.join(bad) or 'ok'})")
 
 
 def _declares_global(fn, name):
